@@ -25,6 +25,28 @@ CHECKS.update({
          "SMT-based bounded symbolic execution of Go SSA (z3), counting-hook oracle, native replay", "DESIGN.md §C10"),
 })
 
+SYM = "SMT-based bounded symbolic execution of Go SSA (z3)"
+CHECKS.update({
+ "C02": ("Bounded symbolic execution of the real Refresh end to end (toStorage, NewPlugin/inject over a reflect shim, tag-list parsing, validation, start-up, findLoggerForTag, rebinding) on generated tag/pattern configurations; which logger serves each tag is observed through recording appender plugins and compared with a reference longest-prefix matcher and validator.",
+         SYM + ", reference-matcher oracle, native replay", "DESIGN.md §C02"),
+ "C03": ("Bounded model checking of the real layouts/appenders/SyncLogger under a cooperative scheduler: two goroutines log through one sync logger to a slow sink, sync.Pool.Get may return any pooled object, every schedule within the pre-emption bound is explored; received lines are compared with the lines each event yields alone.",
+         SYM + " with an explicit scheduler over goroutine interleavings and pool choices, native replay with GOMAXPROCS(1)", "DESIGN.md §C03"),
+ "C04": ("Bounded model checking of the real AsyncLogger (Start worker, Append, Write, onBufferFull, Stop) under a cooperative scheduler: all interleavings within the pre-emption bound of 1..2 producers with the worker, 3 policies, capacity 1..2, arbitrary int32 levels; exact conservation oracle.",
+         SYM + " with an explicit scheduler over goroutine interleavings", "DESIGN.md §C04"),
+ "C05": ("Bounded model checking of Stop for the async logger at every buffer occupancy/worker state, and of Start/log/Stop for every logger kind by direct construction (incl. rolling-file logger sync/async x policies x separate) against the file-system model: Stop returns (no BLOCKED/DIVERGE), everything accepted is in the target, no descriptor stays open.",
+         SYM + " with an explicit scheduler and a file-system model, native replay for the logger-kind harness", "DESIGN.md §C05"),
+ "C12": ("Bounded symbolic execution of raw Write through the named handle for sync (1..3 references with arbitrary ranges, arbitrary payload bytes) and async loggers (caller overwrites its buffer after Write returns).",
+         SYM + ", native replay for the sync harness", "DESIGN.md §C12"),
+ "C13": ("Bounded symbolic execution of RollingFileAppender.Start/Write/rotate/createFile/Stop against a file-system model under a symbolic clock (every reading an arbitrary non-decreasing instant, LIA-encoded): each write whole, exactly once, in the file created in its interval; names = FileName.<timestamp of the creating reading>; restart appends.",
+         SYM + ", symbolic clock (LIA) and file-system model", "DESIGN.md §C13"),
+ "C14": ("Bounded symbolic execution of clearExpiredFiles over a symbolic directory (arbitrary name bytes, ages, max age, clock reading) in the file-system model; removed iff regular file named FileName.<14 digits> older than max age. Counterexamples are replayed on a real temporary directory.",
+         SYM + ", file-system model, native replay on a real directory", "DESIGN.md §C14"),
+ "C19": ("Bounded symbolic execution of the rolling appender with a fault bit on every OpenFile and Write (path-split) under a symbolic clock, plus file/console appenders with failed Start, closed file or failing stream: never panics or blocks, keeps the current file, retries creation at the next boundary only.",
+         SYM + ", fault enumeration via path-split fault bits, symbolic clock and file-system model", "DESIGN.md §C19"),
+ "C20": ("Symbolic execution of sync logger -> file/rolling/console appender for both layouts with the target inspected in the file-system model immediately after every acknowledged call (every crash point between calls): the complete line is already in the target.",
+         SYM + ", file-system model observed at every return point", "DESIGN.md §C20"),
+})
+
 NA_DEFAULT = "check not built yet in this session (engine under construction); see DESIGN.md"
 NA = {}
 
